@@ -156,17 +156,64 @@ Ltac atoms :=
          | H : context [?a <=? ?b] |- _ => destruct (Z.leb_spec a b)
          end.
 
+(** since the repair of ln (60b59c4) no float guard sequence leaves the table: no finding class is excluded *)
 Theorem float_asis_within_spec B o prec x y n out :
-  known (KFloat B o prec x y n) = None -> In out (float_asis B o prec x y n) ->
-  accepts (KFloat B o prec x y n) out = true.
+  In out (float_asis B o prec x y n) -> accepts (KFloat B o prec x y n) out = true.
 Proof.
-  intros Hk Hin.
+  intros Hin.
   destruct x as [xs xe|], y as [ys ye|], o;
-    unfold float_asis, known, guard, finf, fzero, fneg, fone, fsig, fexp in *;
+    unfold float_asis, guard, finf, fzero, fneg, fone, fsig, fexp in *;
     unfold accepts, documented, may, float_documented, finf, fzero, fneg, fone, fsig, fexp, exp_band, big;
     atoms; cbn in *; try discriminate;
     repeat match goal with H : _ \/ _ |- _ => destruct H end; try contradiction; subst;
     first [reflexivity | exfalso; lia].
+Qed.
+
+(** the guard sequences are exact: each operation returns iff the table lists no violated
+    precondition and otherwise panics with the first listed reason (powf and the total operations
+    have shortcuts / profile-dependent outcomes and are covered by the inclusion above only) *)
+Definition first_documented (c : call) : outcome :=
+  match documented c with [] => ORet | r :: _ => OPanic r end.
+Theorem float_guards_exact B o prec x y n :
+  match o with FoPowf | FoTotal => False | _ => True end ->
+  float_asis B o prec x y n = [first_documented (KFloat B o prec x y n)].
+Proof.
+  intros Ho.
+  destruct x as [xs xe|], y as [ys ye|], o; try contradiction;
+    unfold float_asis, first_documented, guard, documented, float_documented, when, finf, fzero, fneg, fone, fsig, fexp;
+    atoms; cbn; try reflexivity; exfalso; lia.
+Qed.
+
+(** operator-form division: inside the table unless the dividend is longer than repr_div supports *)
+Theorem opdiv_asis_within_spec B prec x y out :
+  known (KFloatOpDiv B prec x y) = None -> In out (opdiv_asis B prec x y) ->
+  accepts (KFloatOpDiv B prec x y) out = true.
+Proof.
+  intros Hk Hin. unfold known in Hk.
+  destruct (opdiv_long B prec x y) eqn:El; [discriminate|].
+  unfold opdiv_asis in Hin. rewrite El in Hin.
+  destruct x as [xs xe|], y as [ys ye|];
+    unfold guard, finf, fzero in *;
+    unfold accepts, documented, may, float_documented, when, finf, fzero, fneg, fone, fsig, fexp, exp_band, big;
+    atoms; cbn in *; try discriminate;
+    repeat match goal with H : _ \/ _ |- _ => destruct H end; try contradiction; subst;
+    first [reflexivity | exfalso; lia].
+Qed.
+
+Lemma ndig_fuel_nonneg f : forall B v, 0 <= ndig_fuel f B v.
+Proof.
+  induction f as [|f IH]; intros B v; cbn [ndig_fuel]; [lia|].
+  destruct (v <=? 0); [lia|]. specialize (IH B (v / B)). lia.
+Qed.
+Lemma ndig_nonneg B s : 0 <= ndig B s.
+Proof. unfold ndig. destruct (B <? 2); [lia|apply ndig_fuel_nonneg]. Qed.
+
+(** operands that respect the FBig invariant (at most prec digits) are never in the class *)
+Theorem opdiv_valid_operands_clean B prec xs xe y : ndig B xs <= prec -> opdiv_long B prec (Fin xs xe) y = false.
+Proof.
+  intro H. unfold opdiv_long. destruct y as [ys ye|]; [|reflexivity].
+  pose proof (ndig_nonneg B ys). destruct (prec =? 0); [reflexivity|]. cbn [negb andb].
+  apply Z.ltb_ge. lia.
 Qed.
 
 Theorem prim_asis_within_spec c out :
@@ -193,9 +240,27 @@ Lemma prim_div_unfit_refuted :
   /\ known (KPrimDiv (-128) 127 (-128) (-1)) = Some TPrimDivUnfit.
 Proof. repeat split. Qed.
 
+(** finding ln_nonpositive (fixed by 60b59c4): every outcome of the old guard sequence was refused *)
 Lemma ln_nonpositive_refuted :
-  forall o, In o (asis (KFloat 2 FoLn 17 (Fin (-1) (-7)) (Fin 1 0) 0)) -> accepts (KFloat 2 FoLn 17 (Fin (-1) (-7)) (Fin 1 0) 0) o = false.
+  forall o, In o (ln_asis_before_60b59c4 2 false 17 (Fin (-1) (-7))) -> accepts (KFloat 2 FoLn 17 (Fin (-1) (-7)) (Fin 1 0) 0) o = false.
 Proof. intros o H. cbn in H. repeat destruct H as [<-|H]; try reflexivity. contradiction. Qed.
+
+(** ... and today's sequence panics as documented on the same input *)
+Lemma ln_nonpositive_fixed :
+  asis (KFloat 2 FoLn 17 (Fin (-1) (-7)) (Fin 1 0) 0) = [OPanic (Doc LogOperand)] /\
+  asis (KFloat 10 FoLn 5 (Fin 0 0) (Fin 1 0) 0) = [OPanic (Doc LogOperand)] /\
+  asis (KFloat 10 FoLn1p 5 (Fin (-1) 0) (Fin 1 0) 0) = [OPanic (Doc LogOperand)] /\
+  asis (KFloat 10 FoLn1p 5 (Fin (-5) (-1)) (Fin 1 0) 0) = [ORet].
+Proof. repeat split. Qed.
+
+(** finding float_operand_exceeds_precision (C15 F03) seen from the panic table: 31 / 3 with the
+    dividend of unlimited precision runs repr_div at precision 2 *)
+Lemma float_operand_exceeds_precision_refuted :
+  known (KFloatOpDiv 2 2 (Fin 31 0) (Fin 3 0)) = Some TFloatOperandExceedsPrecision /\
+  asis (KFloatOpDiv 2 2 (Fin 31 0) (Fin 3 0)) = [OPanic (Doc Undocumented); ORet] /\
+  accepts (KFloatOpDiv 2 2 (Fin 31 0) (Fin 3 0)) (OPanic (Doc Undocumented)) = false /\
+  opdiv_long 10 1 (Fin 1000 0) (Fin 3 0) = false.
+Proof. repeat split. Qed.
 
 Lemma with_base_precision_zero_refuted :
   auto_prec_zero 3 10 1 = true /\ with_base_asis 3 10 0 (Fin 1 1000) = OPanic (Doc UnlimitedPrecision)
@@ -231,5 +296,9 @@ Qed.
 (** non-vacuity *)
 Example prim_rem_unsigned_ex : prim_rem_asis 0 255 (-6) 3 = ORet /\ prim_rem_asis 0 255 (-7) 3 = OPanic (Doc Undocumented).
 Proof. split; reflexivity. Qed.
+Example float_guards_exact_ex : float_asis 10 FoDiv 5 (Fin 6 0) (Fin 0 0) 0 = [OPanic (Doc DivideBy0)] /\ float_asis 10 FoSqrt 0 (Fin (-4) 0) (Fin 1 0) 0 = [OPanic (Doc UnlimitedPrecision)].
+Proof. split; reflexivity. Qed.
+Example opdiv_ex : known (KFloatOpDiv 2 2 (Fin 15 0) (Fin 3 0)) = None /\ In ORet (opdiv_asis 2 2 (Fin 15 0) (Fin 3 0)) /\ ndig 10 1000 = 1 /\ ndig 2 31 = 5.
+Proof. repeat split. left. reflexivity. Qed.
 Example farey_ex : farey_up_asis 9 3 1 10 = OHang /\ farey_up_asis 10 3 1 10 = ORet.
 Proof. split; reflexivity. Qed.
